@@ -163,7 +163,7 @@ def bucketRows (cfg : Cfg) (q : Query) (store : List Rec) : Option (List Rec) :=
     let go (hints : List Hint) : List Rec :=
       let c0 := candidates cfg store hints
       let c1 := if cfg.bucketChecksAttr then c0.filter (carries q.slot) else c0
-      let c2 := if hasWindow q then c1.filter (inWindow q) else c1
+      let c2 := if hasWindow q && (!cfg.bucketWindowTimeOnly || q.slot != .key) then c1.filter (inWindow q) else c1
       sortRecs q.slot q.asc c2
     match planFilter cfg g with
     | .bypass => none
@@ -175,28 +175,38 @@ def cuts (q : Query) : Bool := q.from_ != 0 || q.limit != 0 || q.maxResults != 0
 def good (cfg : Cfg) : Cfg := { cfg with
   indexableOps := [.eq, .strIn, .i32In, .i64In], excludesSpecialPaths := true, planOrBypassOnSubGroups := true,
   scanEqCanonical := true, bucketPagingAfterFilter := true, scanPagingAfterFilter := true, labelReattach := true,
-  bucketChecksAttr := true, lookupInDedupes := true, unionDedupes := true }
+  bucketChecksAttr := true, lookupInDedupes := true, unionDedupes := true, bucketWindowTimeOnly := true }
 
 /-- single-fact repairs, with the finding each one stands for -/
-def repairs (cfg : Cfg) : List (String × Cfg) :=
-  (if !cfg.scanEqCanonical then [("C08-scan-equality-not-canonical", { cfg with scanEqCanonical := true })] else []) ++
-  (if !cfg.excludesSpecialPaths then [("C08-special-path-hinted", { cfg with excludesSpecialPaths := true })] else []) ++
+def repairs (cfg : Cfg) : List (String × (Cfg → Cfg)) :=
+  (if !cfg.scanEqCanonical then [("C08-scan-equality-not-canonical", fun c => { c with scanEqCanonical := true })] else []) ++
+  (if !cfg.excludesSpecialPaths then [("C08-special-path-hinted", fun c => { c with excludesSpecialPaths := true })] else []) ++
   (if !(cfg.bucketPagingAfterFilter && cfg.scanPagingAfterFilter) then
-    [("C08-paging-before-residual", { cfg with bucketPagingAfterFilter := true, scanPagingAfterFilter := true })] else []) ++
-  (if !cfg.labelReattach then [("C08-indexed-leg-label-dropped", { cfg with labelReattach := true })] else []) ++
-  (if !cfg.bucketChecksAttr then [("C08-bucket-route-ignores-index-attribute", { cfg with bucketChecksAttr := true })] else []) ++
-  (if !cfg.planOrBypassOnSubGroups then [("C08-or-union-with-subgroups", { cfg with planOrBypassOnSubGroups := true })] else []) ++
+    [("C08-paging-before-residual", fun c => { c with bucketPagingAfterFilter := true, scanPagingAfterFilter := true })] else []) ++
+  (if !cfg.labelReattach then [("C08-indexed-leg-label-dropped", fun c => { c with labelReattach := true })] else []) ++
+  (if !cfg.bucketChecksAttr then [("C08-bucket-route-ignores-index-attribute", fun c => { c with bucketChecksAttr := true })] else []) ++
+  (if !cfg.bucketWindowTimeOnly then [("C08-window-on-key-index", fun c => { c with bucketWindowTimeOnly := true })] else []) ++
+  (if !cfg.planOrBypassOnSubGroups then [("C08-or-union-with-subgroups", fun c => { c with planOrBypassOnSubGroups := true })] else []) ++
   (if cfg.indexableOps != [.eq, .strIn, .i32In, .i64In] then
-    [("C08-non-equality-operator-hinted", { cfg with indexableOps := [.eq, .strIn, .i32In, .i64In] })] else []) ++
+    [("C08-non-equality-operator-hinted", fun c => { c with indexableOps := [.eq, .strIn, .i32In, .i64In] })] else []) ++
   (if !(cfg.lookupInDedupes && cfg.unionDedupes) then
-    [("C08-duplicate-candidates", { cfg with lookupInDedupes := true, unionDedupes := true })] else [])
+    [("C08-duplicate-candidates", fun c => { c with lookupInDedupes := true, unionDedupes := true })] else [])
 
-def explain (cfg : Cfg) (store : List Rec) (q : Query) (b s : List Item) : List String :=
+/-- all sublists of a list, smallest first within each size class is not needed: we sort by length -/
+def sublists {α : Type} : List α → List (List α)
+  | [] => [[]]
+  | x :: xs => let r := sublists xs; r ++ r.map (x :: ·)
+
+/-- the findings that explain a disagreement: the members of the smallest sets of single-fact
+    repairs after which the model's two routes agree on this query -/
+def explain (cfg : Cfg) (store : List Rec) (q : Query) : List String :=
   let rs := repairs cfg
-  let fixes := rs.filter (fun r => bucketRoute r.2 store q == scanRoute r.2 store q)
-  let touched := rs.filter (fun r => bucketRoute r.2 store q != b || scanRoute r.2 store q != s)
-  let pick := if fixes.isEmpty then touched else fixes
-  if pick.isEmpty then ["C08-unexplained"] else pick.map (·.1)
+  let fixes := (sublists rs).filter (fun sub =>
+    let c := sub.foldl (fun c r => r.2 c) cfg
+    !sub.isEmpty && bucketRoute c store q == scanRoute c store q)
+  match fixes.map List.length |>.min? with
+  | none => ["C08-unexplained"]
+  | some m => ((fixes.filter (·.length == m)).flatMap (·.map (·.1))).eraseDups
 
 def slotOf : String → Option Slot
   | "key" => some .key | "created" => some .created | "updated" => some .updated | "expire" => some .expire
@@ -234,7 +244,7 @@ def step (d : DSt) (line : String) : DSt × String :=
         let bNd := match bucketRows d.cfg q d.store with
           | some rows => cuts q && hasTies q.slot rows
           | none => sNd
-        let fl := if bNd || sNd || b == s then "" else String.join ((explain d.cfg d.store q b s).map (fun f => "\t#F:" ++ f))
+        let fl := if bNd || sNd || b == s then "" else String.join ((explain d.cfg d.store q).map (fun f => "\t#F:" ++ f))
         (d, "b=" ++ (if bNd then "nd" else renderItems b) ++ " s=" ++ (if sNd then "nd" else renderItems s) ++ fl)
     | _, _, _, _, _, _ => (d, "bad-op")
   | _ => (d, "bad-op")
@@ -249,7 +259,8 @@ def run (args : List String) : IO UInt32 := do
     planOrBypassOnSubGroups := yes kv "planOrBypassOnSubGroups", scanEqCanonical := yes kv "scanEqCanonical",
     bucketPagingAfterFilter := yes kv "bucketPagingAfterFilter", scanPagingAfterFilter := yes kv "scanPagingAfterFilter",
     labelReattach := yes kv "labelReattach", bucketChecksAttr := yes kv "bucketChecksAttr",
-    lookupInDedupes := yes kv "lookupInDedupes", unionDedupes := yes kv "unionDedupes" }
+    lookupInDedupes := yes kv "lookupInDedupes", unionDedupes := yes kv "unionDedupes",
+    bucketWindowTimeOnly := yes kv "bucketWindowTimeOnly" }
   lineLoop step { cfg := cfg, store := [] }
   return 0
 
